@@ -225,7 +225,8 @@ def to_msg(o):
         elif fc == 8:
             m.update(sub=o.sub_function_code, data=_words(o.message))
         elif fc == 0x0F:
-            m.update(address=o.address, count=len(o.values), byte_count=o.byte_count,
+            # the quantity is the public `count` field when the class has one, else the number of values
+            m.update(address=o.address, count=getattr(o, 'count', len(o.values)), byte_count=o.byte_count,
                      bits=[bool(b) for b in o.values])
         elif fc == 0x10:
             m.update(address=o.address, count=o.count, byte_count=o.byte_count,
